@@ -1159,6 +1159,17 @@ def hb_silence(rng, i):
     steps.append({"do": "consume", "h": "B", "as": "cB"})
     steps.append({"do": "hold", "ch": 1})
     steps.append(dict(op("A", rng.choice(["declare", "qos", "get"])), **{"async": True}))
+    if i % 2 == 1:
+        # ... the connection has already left its steady state when the silence begins: the server closed it
+        # (or sent something the client answers with a close of its own), but the transport takes no more
+        # data, so the final frame cannot go out - and then nothing comes any more
+        steps.append({"do": "await", "ev": "c2s", "n": 0})
+        steps.append({"do": "sync"})
+        steps.append({"do": "budget", "n": 0})
+        if i % 4 == 1:
+            steps.append(srv({"k": "connclose", "code": 320, "text": "CONNECTION_FORCED - x"}))
+        else:
+            steps.append(srv({"k": "method", "ch": 2, "name": "channel.flow", "tag": "cB"}))
     steps.append({"do": "sleep", "ms": 3600 + 200 * (i % 3)})
     steps.append({"do": "wait", "who": "A"})
     steps.append(op("B", "qos"))
